@@ -380,6 +380,22 @@ pub fn run_check<CH: Check>(check: CH, args: Args) -> i32 {
         return 2;
     }
 
+    // ---- watchdog: a run that does not come back is "inconclusive" (exit 2), never a verdict.
+    // (seen once: a change in the page layer made PageManager::new loop for 2^60 iterations and
+    // the C17 run sat at 100 % CPU for 50 minutes.) Quick tiers take 10-150 s on an idle machine.
+    {
+        let limit = std::env::var("VERIF_WATCHDOG_SECS").ok().and_then(|s| s.parse::<u64>().ok()).unwrap_or(match args.tier {
+            Tier::Quick => 3600,
+            Tier::Thorough => 24 * 3600,
+        });
+        let wid = id.to_string();
+        std::thread::spawn(move || {
+            std::thread::sleep(std::time::Duration::from_secs(limit));
+            eprintln!("[{}] inconclusive: watchdog: the run did not finish within {} s (a case may be looping); no verdict", wid, limit);
+            std::process::exit(2);
+        });
+    }
+
     // ---- replay mode -------------------------------------------------------------------
     if let Some(path) = &args.replay {
         let txt = match std::fs::read_to_string(path) {
